@@ -4,6 +4,7 @@ import Orx.GenThms.Slice
 import Orx.GenThms.Vec
 import Orx.GenThms.Arr
 import Orx.GenThms.Range
+import Orx.Props.C07
 /-! # C02 Index fidelity: a reported index is the element's source position -/
 namespace Orx.Props.C02
 open Orx Orx.KS
@@ -131,5 +132,18 @@ theorem source_single_pull_fidelity (len a b c : Nat) (evs dr) (ha : a < W) (hb 
     Arr.fetch_one len (arr len) (st c evs dr) = .ok (if c < len then some ⟨c, c⟩ else none) (st (wrapAdd c 1) (evs ++ [faa c 1]) dr) ∧
     Range.fetch_one (range a b) (st c evs dr) = .ok (if c < b - a then some ⟨c, a + c⟩ else none) (st (wrapAdd c 1) (evs ++ [faa c 1]) dr) :=
   ⟨slice_fetch_one len c evs dr, vec_fetch_one len c evs dr, arr_fetch_one len c evs dr, range_fetch_one a b c evs dr ha hb⟩
+
+
+/-- **What index fidelity of the wrapper presupposes beyond SC interleavings.** The theorems above speak about positions; that the
+element delivered at a position is the one the wrapped iterator produced for it also needs the iterator's internal state to
+be handed from one puller to the next without a data race. That is the happens-before chain of C07, which holds for the
+memory orderings *extracted from the current source* (`Acquire` load of `yielded`, releasing `fetch_add` /
+`fetch_and_increment`), under every schedule and every choice of stale loads: -/
+theorem iter_handover_is_race_free (s : IW.Script) (ps : Nat → List IW.Req) (hok : ∀ t, ∀ r ∈ ps t, IW.ReqOk r)
+    (σ : List (Nat × IW.Stale)) (hW : (IW.runS s σ (IW.init ps)).R < W) (t : Nat)
+    (huse : ∃ r b acc, ((IW.hrunS C07.srcOrds s σ (IW.hinit ps)).core.th t).pc = .cs r b acc ∨
+                       ((IW.hrunS C07.srcOrds s σ (IW.hinit ps)).core.th t).pc = .ins r b acc) :
+    (IW.hrunS C07.srcOrds s σ (IW.hinit ps)).last.le ((IW.hrunS C07.srcOrds s σ (IW.hinit ps)).clk t) :=
+  C07.hb_chain_under_stale_reads s ps hok σ hW t huse
 
 end Orx.Props.C02
